@@ -167,8 +167,12 @@ fn local_ok(local: &str) -> bool {
 }
 
 fn pname_for(iri: &str, prefixes: &[(String, String)]) -> Option<String> {
-    // the most recently declared matching prefix wins
-    for (name, ns) in prefixes.iter().rev() {
+    // the most recently declared matching prefix wins; a declaration whose name was re-bound later
+    // is no longer in effect
+    for (k, (name, ns)) in prefixes.iter().enumerate().rev() {
+        if prefixes[k + 1..].iter().any(|(later, _)| later == name) {
+            continue;
+        }
         if let Some(local) = iri.strip_prefix(ns.as_str()) {
             if local_ok(local) {
                 return Some(format!("{}:{}", name, local));
@@ -244,6 +248,13 @@ pub fn expressible(line: &Line, f: Format, all_lines: &[Line]) -> bool {
 }
 
 pub fn document_expressible(lines: &[Line], f: Format) -> bool {
+    if f == Format::RdfXml {
+        // namespaces sit on the root element: a prefix re-bound half-way cannot be written
+        let names: Vec<&String> = lines.iter().filter_map(|l| if let Line::Prefix { name, .. } = l { Some(name) } else { None }).collect();
+        if names.iter().enumerate().any(|(i, n)| names[..i].contains(n)) {
+            return false;
+        }
+    }
     lines.iter().all(|l| expressible(l, f, lines))
 }
 
